@@ -155,6 +155,12 @@ var c13Contexts = []ctxTmpl{
 	{"{true: 0, true: ", ", false: 2}", false, false, false, false},
 	{"{c1: 0, c1: ", "}", false, false, false, false},
 	{"{2: 0, ", ": 1, 2: 3}", false, false, false, false},
+	// ... next to rival values whose text sorts before and after anything else
+	{"{1: -1, 1: ", "}", false, false, false, false},
+	{"{\"k\": ", ", \"k\": ! true}", false, false, false, false},
+	{"{1.5: \"\", 1.5: ", ", 1.5: \"~~~\"}", false, false, false, false},
+	{"{true: \"~~~\", true: ", "}", false, false, false, false},
+	{"{\"k\": - 1, \"j\": 2, \"k\": ", "}", false, false, false, false},
 	// operands that a constant makes irrelevant
 	{"false && (", ")", false, false, false, false},
 	{"true || (", ")", false, false, false, false},
